@@ -429,6 +429,27 @@ def fold_loop(I, st, pipe, env):
             elif isinstance(c, ast.Call):
                 # a list handed to a callee that may append to it (by its contract's model)
                 cands += [a.id for a in c.args if isinstance(a, ast.Name)] + [k.value.id for k in c.keywords if isinstance(k.value, ast.Name)]
+            if (isinstance(c, ast.Call) and isinstance(c.func, ast.Attribute) and c.func.attr == 'append' and isinstance(c.func.value, ast.Attribute)
+                    and isinstance(c.func.value.value, ast.Name)):
+                # `obj.field.append(..)`: a list that this function created and stored in a field (held by that field only)
+                found, holder = env.lookup(c.func.value.value.id)
+                fname = I.mangle(c.func.value.attr, env) if hasattr(I, 'mangle') else c.func.value.attr
+                cur = holder.fields.get(fname) if found and isinstance(holder, SObj) else None
+                if isinstance(cur, list) and id(cur) not in I.prestate_ids:
+                    refs = 0
+                    e = env
+                    seen_objs = set()
+                    while e is not None:
+                        for k, v in e.vars.items():
+                            if v is cur:
+                                refs += 1
+                            elif isinstance(v, SObj) and id(v) not in seen_objs:
+                                seen_objs.add(id(v))
+                                refs += sum(2 for x in v.fields.values() if x is cur)
+                        e = e.parent
+                    if refs != 2:
+                        raise Unsupported('a list appended to inside a loop over a symbolic sequence is aliased')
+                    holder.fields[fname] = XList(None, list(cur), False)
             for cname in cands:
                 found, cur = env.lookup(cname)
                 if found and isinstance(cur, list) and id(cur) not in I.prestate_ids:
